@@ -295,8 +295,11 @@ fn build(rng: &mut Rng, must: usize) -> Option<Built> {
         let mut blocks = vec![];
         let nb = rng.range(1, 4);
         let mut typed_ops: Vec<(u32, u32)> = vec![]; // (op id, type id) defined earlier in this function
+        // branch targets usually name blocks of this function, in any direction (loops, a true target laid out
+        // behind the false target, blocks nothing branches to): lifting follows the layout, not the control flow
+        let labels: Vec<u32> = (0..nb).map(|_| gen.fresh()).collect();
         for bi in 0..nb {
-            insts.push(AInst::named("Label", None, Some(gen.fresh()), vec![]));
+            insts.push(AInst::named("Label", None, Some(labels[bi]), vec![]));
             // phis: sources are earlier ops of the same type (or unknown ids)
             let mut phi_types = vec![];
             for _ in 0..rng.below(3) {
@@ -353,7 +356,19 @@ fn build(rng: &mut Rng, must: usize) -> Option<Built> {
                 insts.push(AInst::named("Line", None, None, vec![AOp::id(gen.fresh()), AOp::lit(1), AOp::lit(2)]));
             }
             let tn = *rng.pick(&terminators);
-            let t = gen.inst(rng, d.inst(tn), Form::Random)?;
+            let mut t = gen.inst(rng, d.inst(tn), Form::Random)?;
+            if rng.chance(3, 4) {
+                let at: &[usize] = match tn {
+                    "Branch" => &[0],
+                    "BranchConditional" => &[1, 2],
+                    _ => &[],
+                };
+                for p in at {
+                    if let Some(o) = t.ops.get_mut(*p) {
+                        *o = AOp::id(*rng.pick(&labels));
+                    }
+                }
+            }
             insts.push(t.clone());
             blocks.push((phi_types, t));
         }
